@@ -42,6 +42,8 @@ def yCount (r : Nat) : Nat := r / 2 ^ 452 % 16
 /-- k-th calendar-making zhongqi day (k = 0..12) of the solstice year ending in December of the record's year; 0 = not dumped -/
 def yQiRaw (r k : Nat) : Nat := r / 2 ^ (512 + 27 * k) % 2 ^ 27
 def yQi (r k : Nat) : Nat := yQiRaw r k + BASE
+/-- precise conjunction day of month slot i minus the table's first day, plus 1 (0,1,2); 3 = further off -/
+def yShuoCode (r i : Nat) : Nat := r / 2 ^ (864 + 2 * i) % 4
 def tQi (r : Nat) : Nat := r % 2 ^ 24 + BASE
 def tDayRaw (r : Nat) : Nat := r / 2 ^ 24 % 2 ^ 24
 def tDay (r : Nat) : Nat := if tDayRaw r = 0 then 0 else tDayRaw r + BASE
